@@ -82,7 +82,7 @@ Section Angle.
   Proof. induction fuel as [|f IH]; intros a b; simpl; [reflexivity|]. rewrite IH. reflexivity. Qed.
   (* the second loop of the source tests angle_start twice ("a < -2pi or a < -2pi") *)
   Lemma iloop1_eq fuel : forall a b, make_valid_orientation_interval_loop1 tau fuel a b = norm_up tau fuel a b.
-  Proof. induction fuel as [|f IH]; intros a b; simpl; [reflexivity|]. rewrite IH, orb_diag. reflexivity. Qed.
+  Proof. induction fuel as [|f IH]; intros a b; simpl; [reflexivity|]. rewrite IH, ?orb_diag. reflexivity. Qed.
   Lemma src_normalise_eq fuel a b : src_normalise tau fuel a b = normalise tau fuel a b.
   Proof.
     unfold src_normalise, normalise. rewrite iloop0_eq.
